@@ -1035,6 +1035,37 @@ def x86_addressing_stage(ctx):
                                         'compare with llvm-mc -triple=x86_64 -show-encoding on the intel-syntax operand'})
 
 
+X86RMW_FN = 'x86-rmw-destination-not-defined'
+
+
+def x86_rmw_witness(ctx):
+    """deterministic witness of the spill miscompilation found by the native search (gen3, -O1..): a read-modify-write
+    instruction whose destination is a register r/m operand must report that register in defined_registers, otherwise
+    the register allocator emits no store after it when the destination is spilled (validation, NOT proof)."""
+    from ppci.arch.x86_64 import instructions as x, registers as r
+    probes = []
+    for bits, rm, cls in ((64, x.RmReg64, r.Register64), (32, x.RmReg32, r.Register32), (16, x.RmReg16, r.Register16)):
+        col = {64: x.bits64, 32: x.bits32, 16: x.bits16}[bits]
+        for name in ('ShrCl', 'SarCl', 'ShlCl', 'NegRm', 'NotRm'):
+            probes.append(('%s/%d' % (name, bits), getattr(col, name), rm, cls))
+    for name in ('ShrCl8', 'SarCl8', 'ShlCl8'):
+        probes.append((name, getattr(x, name), x.RmReg8, r.Register8))
+    missing = []
+    for label, ins_cls, rm, reg_cls in probes:
+        v = reg_cls('c04probe')
+        ins = ins_cls(rm(v))
+        if not (ins.writes_register(v) and ins.reads_register(v)):
+            missing.append(label)
+    ctx.cov['stages']['x86_rmw_defs'] = {'probed': len(probes), 'destination_not_defined': missing}
+    if missing:
+        ctx.violation({'fn': X86RMW_FN, 'case': 'shift-by-cl / neg / not on a register r/m operand', 'key': X86RMW_FN,
+                       'args': missing, 'expected': 'defined_registers contains the destination register',
+                       'actual': 'destination only reported as read: no spill store is emitted after the instruction '
+                                 '(mov eax,[slot]; shr eax,cl; mov eax,[slot])',
+                       'how_to_replay': 'from ppci.arch.x86_64 import instructions as x, registers as r; v = r.Register32("v"); '
+                                        'x.bits32.ShrCl(x.RmReg32(v)).defined_registers  -> [] ; native: replays/C04 gen3 program at -O1'})
+
+
 def csys():
     """tools/gen/csysgen.py: the systematic C programs"""
     import importlib
@@ -1073,6 +1104,11 @@ class Native:
     def reference_opt(self, src):
         """second opinion (gcc -O2 -fwrapv): when the two gcc builds differ the program is not trusted as oracle"""
         return self.sh('gcc -O2 -w -fwrapv -fno-strict-aliasing main.c t.c -o ref2.exe && ./ref2.exe')
+
+    def reference_ubsan(self, src):
+        """third opinion: the program must run clean under UBSan/ASan with the same output (else it is not used as oracle)"""
+        return self.sh('gcc -O1 -w -fsanitize=undefined,address -fno-sanitize-recover=all main.c t.c -o ref3.exe && ./ref3.exe',
+                       timeout=60)
 
     def ppci_build(self, src, opt):
         from ppci import api
@@ -1177,29 +1213,17 @@ class PendingFixes:
 
     def attribute(self, opt, link, ref):
         """t.c in the native directory is the failing program. -> (fn, text) or None"""
+        # only C04's own, single, named fix diffs: a mismatch is written off only as the one specific defect whose fix
+        # removes it (known_findings.json has one entry per diff, keyed by this fn); no catch-all
         mine = [d for d in self.diffs if d.startswith('C04-')]
-        self.hot = getattr(self, 'hot', [])
-        for d in mine + self.hot:          # the diffs that explained earlier mismatches first
+        for d in mine:
             got, applied = self.run([d], opt, link)
             if applied and got == ref:
-                return LOST_COPY_FN if 'phi-lost-copy' in d else PENDING_FN, 'mismatch disappears with fixes/%s applied' % d
-        got, applied = self.run(self.diffs, opt, link)
-        if got != ref:
-            return None
-        relevant = [d for d in applied if d not in mine and d not in self.hot]
-        for d in relevant:
-            txt = open(os.path.join(self.verif, 'fixes', d)).read()
-            if not re.search(r'^\+\+\+ b/ppci/(opt|codegen|ir\.py|irutils|lang/c|arch/x86_64|arch/arch|binutils|format/elf)', txt, re.M):
-                continue
-            got, ap = self.run([d], opt, link)
-            if ap and got == ref:
-                self.hot.insert(0, d)
-                return PENDING_FN, 'mismatch disappears with fixes/%s applied' % d
-        return PENDING_FN, 'mismatch disappears with all %d applicable fixes/*.diff applied together' % len(applied)
+                return 'native:fix:' + d[:-5], 'mismatch disappears with fixes/%s (and nothing else) applied' % d
+        return None
 
 
 LOST_COPY_FN = 'native:phi-lost-copy'
-PENDING_FN = 'native:pending-fix-of-another-property'
 
 
 def native_compare(ctx, nat, src, label, pending, levels=(0, 1, 2, 's'), both_links=True, groups=None):
@@ -1210,6 +1234,8 @@ def native_compare(ctx, nat, src, label, pending, levels=(0, 1, 2, 's'), both_li
         return 0, 'reference failed'
     if nat.reference_opt(src) != ref:
         return 0, 'gcc -O0 and gcc -O2 disagree (generator bug: program not UB-free?)'
+    if groups is None and nat.reference_ubsan(src) != ref:
+        return 0, 'UBSan/ASan build disagrees or traps (generator bug: program not UB-free)'
     runs = 0
     for opt in levels:
         obj = None
@@ -1351,6 +1377,11 @@ def run(ctx):
     except Exception as ex:      # noqa: BLE001
         ctx.log('x86 addressing stage crashed: %r' % (ex,))
         ctx.failed_stages.append(('x86_addressing', repr(ex)))
+    try:
+        x86_rmw_witness(ctx)
+    except Exception as ex:      # noqa: BLE001
+        ctx.log('x86 rmw witness crashed: %r' % (ex,))
+        ctx.failed_stages.append(('x86_rmw', repr(ex)))
     lap('x86 addressing modes vs llvm-mc')
     if rows is not None:
         bad_rows = [r for r in rows if not (r[4] and (r[2] or r[3]))]
